@@ -117,7 +117,7 @@ pub enum CircuitError {
 impl Circuit {
     /// Checks that the circuit only has valid instructions, has inputs andoutputs.
     pub fn validate(&self) -> Result<(), CircuitError> {
-        let max_reg = Reg(self.max_reg_count.saturating_sub(1) as u32);
+        let in_range = |r: Reg| (r.0 as usize) < self.max_reg_count;
         if self.input_regs.iter().all(|i| *i == 0) {
             return Err(CircuitError::EmptyInputs);
         }
@@ -126,7 +126,7 @@ impl Circuit {
             return Err(CircuitError::EmptyOutputs);
         }
         for &o in self.output_regs.iter() {
-            if o > max_reg {
+            if !in_range(o) {
                 return Err(CircuitError::InvalidOutput(o));
             }
         }
@@ -136,28 +136,33 @@ impl Circuit {
 
         let mut register_set = vec![false; self.max_reg_count];
         for (i, inst) in self.insts.iter().enumerate() {
-            if inst.out > max_reg {
+            if !in_range(inst.out) {
                 return Err(CircuitError::InvalidInst(i));
             }
             match inst.op {
-                Op::Input(_) => {
+                Op::Input(Input { party, input }) => {
                     if i != inst.out.0 as usize {
                         return Err(CircuitError::InvalidInput(i, *inst));
                     }
+                    // the instruction must name an existing input bit of an existing party:
+                    match self.input_regs.get(party as usize) {
+                        Some(&bits) if (input as usize) < bits => {}
+                        _ => return Err(CircuitError::InvalidInput(i, *inst)),
+                    }
                 }
                 Op::Xor(Xor(x, y)) | Op::And(And(x, y)) => {
-                    if x > max_reg || y > max_reg {
+                    if !in_range(x) || !in_range(y) {
                         return Err(CircuitError::InvalidInst(i));
                     }
                     if !register_set[x] {
                         return Err(CircuitError::InvalidRegAccess(i, x));
                     }
                     if !register_set[y] {
-                        return Err(CircuitError::InvalidRegAccess(i, x));
+                        return Err(CircuitError::InvalidRegAccess(i, y));
                     }
                 }
                 Op::Not(Not(x)) => {
-                    if x > max_reg {
+                    if !in_range(x) {
                         return Err(CircuitError::InvalidInst(i));
                     }
                     if !register_set[x] {
@@ -166,6 +171,12 @@ impl Circuit {
                 }
             }
             register_set[inst.out] = true;
+        }
+        // every output must have been written by some instruction:
+        for &o in self.output_regs.iter() {
+            if !register_set[o] {
+                return Err(CircuitError::InvalidOutput(o));
+            }
         }
 
         Ok(())
